@@ -52,6 +52,20 @@ func geoCheck(op string, v []float64) (fails bool, exp, got string) {
 		case latA == latB && lonA == lonB && d1 != 0:
 			return true, "0 for identical locations", fmt.Sprint(d1)
 		}
+	case "bearing-pair":
+		// A, B: travelling DistanceTo(A,B) along BearingTo(A,B) from A ends at B
+		latA, lonA, latB, lonB := v[0], v[1], v[2], v[3]
+		d := geo.DistanceTo(latA, lonA, latB, lonB)
+		brg := geo.BearingTo(latA, lonA, latB, lonB)
+		if math.IsNaN(brg) || brg < 0 || brg >= 360.0000001 {
+			return true, "bearing in [0,360)", fmt.Sprint(brg)
+		}
+		la, lo := geo.DestinationPoint(latA, lonA, d, brg)
+		miss := sphere.Dist(la, lo, latB, lonB)
+		tol := 2*tolDist(d) + 0.25
+		if miss > tol {
+			return true, fmt.Sprintf("destination of %.3f m along BearingTo = %.9f deg within %.3f m of B", d, brg, tol), fmt.Sprintf("(%v,%v), %.3f m from B", la, lo, miss)
+		}
 	case "destination":
 		lat, lon, d, brg := v[0], v[1], v[2], v[3]
 		la, lo := geo.DestinationPoint(lat, lon, d, brg)
@@ -160,7 +174,7 @@ func runC15(r *rt.Run) {
 	r.Bounds["longitudes"] = lons
 	r.Bounds["bearings"] = len(brgs)
 	r.Bounds["distances"] = dists
-	r.Rule = "full product of the listed alphabets: every ordered pair of locations (plus the exact antipode of every location) for distance; every location x bearing x distance for destination / distance back / initial bearing; pole approach: 9 start latitudes on both hemispheres x 5 longitudes x travel along (and within 1e-6..1e-3 degree of) the meridian ending from 10 m short of to 10 m beyond the pole in 17 steps; haversine monotone along the sorted distance alphabet and metre round trip; normalisation on multiples and offsets of the circumference; semicircle round trip on a 2^16-point grid plus +-180, +-90; non-trivial = distinct locations / positive distance"
+	r.Rule = "full product of the listed alphabets: every ordered pair of locations (plus the exact antipode of every location) for distance, and, away from the poles and the antipode, for the round trip (travelling DistanceTo along BearingTo from A ends at B); every location x bearing x distance for destination / distance back / initial bearing; pole approach: 9 start latitudes on both hemispheres x 5 longitudes x travel along (and within 1e-6..1e-3 degree of) the meridian ending from 10 m short of to 10 m beyond the pole in 17 steps; haversine monotone along the sorted distance alphabet and metre round trip; normalisation on multiples and offsets of the circumference; semicircle round trip on a 2^16-point grid plus +-180, +-90; non-trivial = distinct locations / positive distance"
 	r.Assume = []string{"sphere radius 6371e3 m (the library's constant)", "reference: unit vectors + atan2 (verif/mc/sphere); tolerances as stated in C15", "decided on the numeric lattice only"}
 	type loc struct{ lat, lon float64 }
 	var locs []loc
@@ -177,6 +191,11 @@ func runC15(r *rt.Run) {
 			geoRun(w, "distance-pair", a.lat, a.lon, b.lat, b.lon)
 			if a != b {
 				w.Nontriv++
+			}
+			if math.Abs(a.lat) <= 89 && math.Abs(b.lat) <= 89 {
+				if d := sphere.Dist(a.lat, a.lon, b.lat, b.lon); d >= 1 && d <= piR-100000 {
+					geoRun(w, "bearing-pair", a.lat, a.lon, b.lat, b.lon)
+				}
 			}
 		}
 		alon := a.lon + 180
